@@ -36,7 +36,7 @@ class SchemaModel(Model):
         # ---- metadata
         A("Address", {"name": "Str", "module": "Str", "module_path": "Seq[Int]", "package": "Seq[Str]", "parent": "Seq[Str]",
                       "proto": "Str", "proto_package": "Str", "is_proto_plus_type": "Bool", "api_naming": "Naming",
-                      "collisions": "Set[Str]", "sphinx": "Str", "module_alias": "Str", "python_import": "Import"})
+                      "collisions": "Set[Str]", "resolve": "method", "sphinx": "Str", "module_alias": "Str", "python_import": "Import"})
         A("Metadata", {"address": "Address", "doc": "Str"})
         A("Naming", {"proto_package": "Str", "module_name": "Str", "version": "Str", "name": "Str"})
         A("Import", {})
